@@ -11,15 +11,17 @@ PID = "C02"
 LEVEL = "other"
 EXPLANATION = (
     "Static analysis over MIR. Decided: R1 in handle_rpc_call's batch region RpcServiceT::batch is dominated by "
-    "batch_config != Disabled and by a length guard with normal form `len > max -> refuse` (so `len <= max` proceeds); the "
-    "refusal exits build Id::Null errors with -32005 / -32010 and reach no RpcServiceT method; an unparsable array is "
-    "ParseError with Id::Null; R2 the ordered list of classification attempts per batch entry equals the list for a "
-    "single message and every attempt parses the loop element; an unclassifiable entry becomes InvalidRequest with its "
-    "recovered id or Id::Null; R3 in RpcService::batch each loop-body path appends exactly once for a Call entry (the "
-    "awaited call result) and for an Err entry (with the entry's id), zero times for a Notification; after the loop "
-    "`is_empty && got_notification` -> notification() else from_batch(finish()); finish() on an empty builder yields "
-    "InvalidRequest with Id::Null; R4 no path from RpcService::batch through the Subscription callback slot reaches a "
-    "direct write to the connection queue. NOT decided: equality with the stand-alone response; permutations."
+    'batch_config != Disabled and by a length guard with normal form `len > max -> refuse` (so `len <= max` '
+    'proceeds); the refusal exits build Id::Null errors with -32005 / -32010 and reach no RpcServiceT method; an '
+    'unparsable array is ParseError with Id::Null; R2 the ordered list of classification attempts per batch entry '
+    'equals the list for a single message and every attempt parses the loop element; an unclassifiable entry becomes '
+    'InvalidRequest with its recovered id or Id::Null; R3 in RpcService::batch each loop-body path appends exactly '
+    "once for a Call entry (the awaited call result) and for an Err entry (with the entry's id), zero times for a "
+    'Notification; after the loop `is_empty && got_notification` -> notification() else from_batch(finish()); '
+    'finish() on an empty builder yields InvalidRequest with Id::Null; R4 no path from RpcService::batch through the '
+    'Subscription callback slot reaches a direct write to the connection queue. CFG the configured BatchRequestConfig '
+    'reaches ServerConfig verbatim (every write of the field takes a parameter or the same-named field; fresh '
+    'variants only in default()). NOT decided: equality with the stand-alone response; permutations.'
 )
 RULE_TEXT = "instances = guards and refusal exits in the batch region, classification attempts, append counts per loop-body path, reachability queries from batch"
 TRUSTED = ["rustc MIR + trait resolution", "serde_json"]
